@@ -54,6 +54,7 @@ func main() {
 			if k < nargs/10 {
 				runPanic(n, int(rng.Uint64()%uint64(n)), rng.Uint64(), coef)
 				runRecursive(n, rng.Uint64()%4096, coef, int(rng.Uint64()%uint64(n)))
+				runNested(n, rng.Uint64()%100000, coef)
 			}
 		}
 		coef := make([]uint64, 2*n)
@@ -218,6 +219,84 @@ func runRecursive(n int, arg uint64, coef []uint64, at int) {
 		rec.Violate(fmt.Sprintf("C20/Pipe%d/panic", n), fmt.Sprintf("recursive pipeline: %v", p), c)
 	} else if got != want {
 		rec.Violate(fmt.Sprintf("C20/Pipe%d/result", n), fmt.Sprintf("recursive pipeline (stage %d re-enters the composed function): got %d want %d", at+1, got, want), c)
+	}
+}
+
+// composed functions as stages of other compositions: a function returned by PipeN is a function like any other.
+// Pipes are built first, others of the same types are built in between, and only then are the stored ones put
+// together (q = Pipe(p1, h), r = Pipe(p1, p2), s = Pipe(q, p2, ...)); every supplied function still runs once per call.
+func runNested(n int, arg uint64, coef []uint64) {
+	c := caseT{Family: "nested", N: n, Arg: fmt.Sprint(arg), Coef: coef}
+	calls := map[string]int{}
+	mk := func(tag string, k int) (fs []func(uint64) uint64, ref func(uint64) uint64) {
+		for i := 0; i < k; i++ {
+			i := i
+			name := fmt.Sprint(tag, i)
+			a, b := coef[(2*i)%len(coef)]+uint64(len(tag)*7), coef[(2*i+1)%len(coef)]^uint64(tag[0])
+			fs = append(fs, func(x uint64) uint64 { calls[name]++; return x*a + b })
+		}
+		return fs, func(x uint64) uint64 {
+			for i := 0; i < k; i++ {
+				a, b := coef[(2*i)%len(coef)]+uint64(len(tag)*7), coef[(2*i+1)%len(coef)]^uint64(tag[0])
+				x = x*a + b
+			}
+			return x
+		}
+	}
+	k := 2 + n%4
+	f1, r1 := mk("p", k)
+	f2, r2 := mk("qq", k)
+	f3, r3 := mk("rrr", 2)
+	var p1, p2, p3, q, r, s func(uint64) uint64
+	if pn := common.Catch(func() {
+		p1 = composeI(f1)
+		p2 = composeI(f2) // another composition of the same types, built after p1
+		p3 = composeI(f3)
+		q = composeI([]func(uint64) uint64{p1, f3[0]})
+		r = composeI([]func(uint64) uint64{p1, p2})
+		s = composeI([]func(uint64) uint64{composeI([]func(uint64) uint64{p2, p1}), p3, p1})
+	}); pn != nil {
+		rec.Violate(fmt.Sprintf("C20/Pipe%d/panic", n), fmt.Sprintf("nested compositions: %v", pn), c)
+		return
+	}
+	rec.Eval(fmt.Sprint("nest", n, arg, coef[0]), true)
+	f30 := func(x uint64) uint64 {
+		return x*(coef[0]+uint64(3*7)) + (coef[1%len(coef)] ^ uint64('r'))
+	}
+	for _, t := range []struct {
+		name string
+		f    func(uint64) uint64
+		want uint64
+		uses map[string]int
+	}{
+		{"Pipe(p1, h)", q, f30(r1(arg)), map[string]int{"p": 1, "rrr0": 1}},
+		{"Pipe(p1, p2)", r, r2(r1(arg)), map[string]int{"p": 1, "qq": 1}},
+		{"Pipe(Pipe(p2, p1), p3, p1)", s, r1(r3(r1(r2(arg)))), map[string]int{"p": 2, "qq": 1, "rrr": 1}},
+		{"p1 itself, afterwards", p1, r1(arg), map[string]int{"p": 1}},
+	} {
+		clear(calls)
+		var got uint64
+		if pn := common.Catch(func() { got = t.f(arg) }); pn != nil {
+			rec.Violate(fmt.Sprintf("C20/Pipe%d/panic", n), fmt.Sprintf("%s: %v", t.name, pn), c)
+			return
+		}
+		if got != t.want {
+			rec.Violate(fmt.Sprintf("C20/Pipe%d/result", n), fmt.Sprintf("%s (compositions stored and put together later): got %d want %d; applications %v", t.name, got, t.want, calls), c)
+			return
+		}
+		for name, cnt := range calls {
+			tag := name[:len(name)-1]
+			if w, ok := t.uses[name]; ok {
+				if cnt != w {
+					rec.Violate(fmt.Sprintf("C20/Pipe%d/calls", n), fmt.Sprintf("%s: %s applied %d times, want %d", t.name, name, cnt, w), c)
+					return
+				}
+			} else if cnt != t.uses[tag] {
+				rec.Violate(fmt.Sprintf("C20/Pipe%d/calls", n), fmt.Sprintf("%s: %s applied %d times, want %d", t.name, name, cnt, t.uses[tag]), c)
+				return
+			}
+		}
+		rec.Count("function_applications_observed", int64(len(calls)))
 	}
 }
 
